@@ -70,14 +70,15 @@ def validate_cases(v, obs_path, cfg, timeout=900):
         raise vlib.MachineryError("TraceHttpWire failed: %s\n%s" % (tr.kind, tr.out[-3000:]))
     if tr.distinct != len(rows) + 1:
         raise vlib.MachineryError("TraceHttpWire visited %d states for %d lines\n%s" % (tr.distinct, len(rows), tr.out[-2000:]))
-    for inv, ln in _violations_by_line(tr):
+    for k, (inv, ln) in enumerate(_violations_by_line(tr)):
         row = rows[ln - 1]
         c = row["c"]
+        keep = k < 40        # replay files for the first violations only (a broad regression breaks thousands of cases)
         v.violation("wire %s inv=%s" % (_case_class(c), inv),
                     "case %d %s: target saw %s (samples %s, err=%r) — rule %s of HttpWire.tla fails; ammo file %r, headers option %s" % (
                         row["id"], {k: c[k] for k in ("fmt", "ssl", "method", "uri", "host", "body")},
                         row["obs"], row["samples"], row["err"], inv, row["file"], c["opts"]),
-                    replay_obj={"kind": "case", "invariant": inv, "case": {"id": row["id"], "c": c}, "observed": row, "cfg": cfg},
+                    replay_obj={"kind": "case", "invariant": inv, "case": {"id": row["id"], "c": c}, "observed": row, "cfg": cfg} if keep else None,
                     replay_name="case_%d_%s.json" % (row["id"], inv))
     return rows, tr
 
